@@ -311,19 +311,22 @@ def run(ctx, configs=None):
                     # a bare `write` on a *generic* writer (`W: Write`): the value encoders and packet writers are generic and are
                     # instantiated with the connection, whose write accepts only what fits into the current packet.  Only an
                     # `impl Write` may forward to an inner write (its own caller loops).
-                    # ... unless the count it returns is looked at (a hand-written write loop): the count flows into a comparison / an
-                    # addition somewhere in the function
+                    # ... unless the count it returns is looked at (a hand-written write loop): the count flows into a comparison or a branch
+                    # somewhere in the function (directly or through a running total)
                     used = False
                     for bby in range(fn_.n):
                         for iy, sy in enumerate(fn_.blocks[bby]["stmts"]):
-                            if sy["k"] == "assign" and sy["rv"]["k"] == "bin" and sy["rv"]["op"] in ("Lt", "Le", "Gt", "Ge", "Eq", "Ne", "Add", "AddWithOverflow", "Sub", "SubWithOverflow"):
+                            # (adding the count to a running total that is only *returned* is not looking at it: `Ok(head + w.write(bytes)?)`)
+                            if sy["k"] == "assign" and sy["rv"]["k"] == "bin" and sy["rv"]["op"] in ("Lt", "Le", "Gt", "Ge", "Eq", "Ne"):
                                 o_ = fn_.origin_rvalue(sy["rv"], bby, iy, 0)
                                 if T.find(o_, lambda x: isinstance(x, tuple) and x[0] == "okpayload" and T.find(x, lambda y: isinstance(y, tuple) and y[0] == "call" and y[1].endswith("io::Write::write") and y[3:] == (("site", bbx),) or (isinstance(y, tuple) and y[0] == "call" and y[1].endswith("io::Write::write") and len(y) > 3 and y[3] == bbx)) is not None) is not None:
                                     used = True
                         ty = fn_.term(bby)
                         if ty["k"] == "switch":
                             o_ = fn_.origin_op(ty["discr"], bby, len(fn_.blocks[bby]["stmts"]))
-                            if T.find(o_, lambda x: isinstance(x, tuple) and x[0] == "okpayload" and T.find(x, lambda y: isinstance(y, tuple) and y[0] == "call" and y[1].endswith("io::Write::write")) is not None) is not None:
+                            # (the discriminant of a Result/Option that merely *carries* the count — `r?`, `.map(|_| ())` — is not a look at it)
+                            if not (isinstance(o_, tuple) and o_ and o_[0] == "discr") and \
+                                    T.find(o_, lambda x: isinstance(x, tuple) and x[0] == "okpayload" and T.find(x, lambda y: isinstance(y, tuple) and y[0] == "call" and y[1].endswith("io::Write::write")) is not None) is not None:
                                 used = True
                     if not used:
                         ctx.ob("C04.write-progress", False, "%s calls Write::write on a generic writer and drops the count it returns: with the connection behind it, bytes beyond the current packet boundary are silently lost (use write_all)" % fn_.path,
